@@ -136,9 +136,152 @@ def impl_proto(case) -> str:
             + f"|s{producer.stops if producer else 0}")
 
 
+def impl_two(case) -> str:
+    """two requests on one connection; the second is issued by the application from inside the first response's
+    body consumer (its connectionLost, or its dataReceived of the last body byte) or after the first exchange"""
+    from twisted.internet.defer import Deferred, succeed
+    from twisted.internet.defer import CancelledError
+    from twisted.internet.error import ConnectionDone
+    from twisted.internet.protocol import Protocol
+    from twisted.internet.testing import StringTransport
+    from twisted.python.failure import Failure as TFailure
+    from twisted.web._newclient import (HTTP11ClientProtocol, PotentialDataLoss, Request, RequestGenerationFailed,
+                                        RequestNotSent, RequestTransmissionFailed, ResponseDone, ResponseFailed,
+                                        ResponseNeverReceived)
+    from twisted.web.http_headers import Headers
+    from twisted.web.iweb import IBodyProducer
+    from zope.interface import implementer
+
+    _silence_log()
+
+    class Transport(StringTransport):
+        def _checkState(self):
+            pass
+
+    @implementer(IBodyProducer)
+    class Producer:
+        length = 4
+
+        def __init__(self, sync):
+            self.sync, self.consumer, self.d = sync, None, None
+
+        def startProducing(self, consumer):
+            self.consumer = consumer
+            if self.sync:
+                consumer.write(b"body")
+                return succeed(None)
+            self.d = Deferred()
+            return self.d
+
+        def finish(self):
+            if self.d is not None and not self.d.called:
+                try:
+                    self.consumer.write(b"body")
+                except Exception:
+                    pass
+                self.d.callback(None)
+
+        def stopProducing(self):
+            pass
+
+        def pauseProducing(self):
+            pass
+
+        def resumeProducing(self):
+            pass
+
+    def reason_tag(reason):
+        return ("D" if reason.check(ResponseDone) else "P" if reason.check(PotentialDataLoss)
+                else "F" if reason.check(ResponseFailed) else "?" + reason.type.__name__)
+
+    def fail_tag(f):
+        for cls, tag in ((RequestNotSent, "X"), (ResponseNeverReceived, "N"), (ResponseFailed, "F"),
+                         (RequestGenerationFailed, "G"), (RequestTransmissionFailed, "T"), (CancelledError, "C")):
+            if f.check(cls):
+                return tag
+        return "?" + f.type.__name__
+
+    st = {1: {"fired": [], "got": [], "closed": [], "response": None, "delivered": False},
+          2: {"fired": [], "got": [], "closed": [], "response": None, "delivered": False}}
+    box = {"issued": False, "producer": None}
+    n1 = case["body1_len"]
+    issue_at = case["issue"]
+    proto = HTTP11ClientProtocol()
+    proto.makeConnection(Transport())
+
+    def issue():
+        if box["issued"]:
+            return
+        box["issued"] = True
+        kind = case["req2"]
+        producer = None if kind == "get" else Producer(sync=(kind == "sync"))
+        box["producer"] = producer
+        d2 = proto.request(Request(H(case["method2"]) if producer is None else b"POST", b"/two",
+                                   Headers({b"host": [b"h"]}), producer, persistent=case["persistent"]))
+        d2.addCallbacks(lambda r: (st[2]["fired"].append(f"R{r.code}"), st[2].__setitem__("response", r)),
+                        lambda f: st[2]["fired"].append(fail_tag(f)))
+
+    class Consumer(Protocol):
+        def __init__(self, k):
+            self.k = k
+
+        def dataReceived(self, data):
+            if st[self.k]["closed"]:
+                st[self.k]["got"].append(b"<<after-close>>")
+            st[self.k]["got"].append(data)
+            if self.k == 1 and issue_at == "at-last-data" and n1 > 0 and len(b"".join(st[1]["got"])) >= n1:
+                issue()
+
+        def connectionLost(self, reason):
+            st[self.k]["closed"].append(reason_tag(reason))
+            if self.k == 1 and issue_at == "at-close":
+                issue()
+
+    def deliver(k):
+        if st[k]["response"] is not None and not st[k]["delivered"]:
+            st[k]["delivered"] = True
+            st[k]["response"].deliverBody(Consumer(k))
+
+    def on1(resp):
+        st[1]["fired"].append(f"R{resp.code}")
+        st[1]["response"] = resp
+        if case["deliver1"] == "at-response":
+            deliver(1)
+
+    d1 = proto.request(Request(H(case["method1"]), b"/one", Headers({b"host": [b"h"]}), None,
+                               persistent=case["persistent"]))
+    d1.addCallbacks(on1, lambda f: st[1]["fired"].append(fail_tag(f)))
+    for seg in case["segs1"]:
+        proto.dataReceived(H(seg))
+    if case["deliver1"] == "after-all":
+        deliver(1)
+    if issue_at == "after":
+        issue()
+    if box["issued"] and st[2]["fired"] != ["X"]:
+        for op in case["ops2"]:
+            k = op[0]
+            if k == "data":
+                proto.dataReceived(H(op[1]))
+            elif k == "qdone":
+                if box["producer"] is not None:
+                    box["producer"].finish()
+            elif k == "deliver":
+                deliver(2)
+            elif k == "lost":
+                proto.connectionLost(TFailure(ConnectionDone()))
+
+    def show(k):
+        return ",".join(st[k]["fired"]) + "|" + b"".join(st[k]["got"]).hex() + "|" + ",".join(st[k]["closed"])
+
+    second = "unissued" if not box["issued"] else ("X" if st[2]["fired"] == ["X"] else show(2))
+    return show(1) + "#" + second
+
+
 def impl(case) -> str:
     if case.get("kind") == "proto":
         return impl_proto(case)
+    if case.get("kind") == "two":
+        return impl_two(case)
     from twisted.internet.error import ConnectionDone
     from twisted.internet.protocol import Protocol
     from twisted.internet.testing import StringTransport
@@ -329,9 +472,61 @@ def oracle_proto(case, obs):
     return None
 
 
+def oracle_two(case, obs):
+    if "#" not in obs:
+        return Failure(case, "driver anomaly: " + obs[:100], "driver")
+    o1, o2 = obs.split("#")
+    f1, d1, c1 = o1.split("|")
+    code1, body1 = case["code1"], H(case["body1"])
+    if f1 != f"R{code1}":
+        return Failure(case, f"first request: Deferred shows [{f1}], the wire carried a complete {code1} response",
+                       "two-first-deferred")
+    if H(d1) != body1 or c1 != "D":
+        return Failure(case, f"first request: consumer got {H(d1)!r} / [{c1}], expected {body1!r} / [D]", "two-first-body")
+    if o2 == "unissued":
+        if case["issue"] == "at-last-data" and len(body1) == 0:
+            return None
+        return Failure(case, "the application's hook never ran: " + obs[:80], "two-hook")
+    if o2 == "X":
+        # refused: legitimate only while the first exchange is still going on (the last body byte is being delivered
+        # from the network); once the first response is complete the connection is free again
+        if case["issue"] == "at-last-data" and case["deliver1"] == "at-response":
+            return None
+        return Failure(case, f"second request issued {case['issue']} (first body delivered {case['deliver1']}) was refused "
+                       "with RequestNotSent although the first exchange was complete", "reentrant-request-refused")
+    f2, d2, c2 = o2.split("|")
+    fired2 = f2.split(",") if f2 else []
+    ops = [o[0] for o in case["ops2"]]
+    if len(fired2) > 1:
+        return Failure(case, f"second request's Deferred fired {len(fired2)} times", "two-second-fired-twice")
+    complete2 = case["t2"] >= len(H(case["wire2"])) and (case["req2"] != "async" or "qdone" in ops
+                                                       or True)
+    head2 = case["t2"] >= case["headlen2"]
+    written = case["req2"] != "async" or "qdone" in ops
+    if "lost" in ops and len(fired2) != 1:
+        return Failure(case, f"second request (issued {case['issue']}, body {case['req2']}): the connection was lost but "
+                       f"its Deferred never fired", "reentrant-request-never-completes")
+    if case["t2"] >= len(H(case["wire2"])) and fired2 != [f"R{case['code2']}"]:
+        return Failure(case, f"second request (issued {case['issue']}, body {case['req2']}): the wire carried a complete "
+                       f"{case['code2']} response but its Deferred shows {fired2}", "reentrant-request-never-completes")
+    if head2 and written and fired2 != [f"R{case['code2']}"]:
+        return Failure(case, f"second request: head complete and request written but Deferred shows {fired2}",
+                       "two-second-deferred")
+    if not H(case["body2"]).startswith(H(d2)):
+        return Failure(case, "second request: delivered bytes are not a prefix of the body", "two-second-body")
+    if fired2 == [f"R{case['code2']}"] and "deliver" in ops[ops.index("deliver"):] and case["t2"] >= len(H(case["wire2"])) \
+            and ops.index("deliver") > max([i for i, o in enumerate(ops) if o == "data"], default=-1):
+        if H(d2) != H(case["body2"]) or c2 != "D":
+            return Failure(case, f"second request: consumer got {H(d2)!r} / [{c2}], expected the whole body / [D]",
+                           "two-second-body")
+    return None
+
+
 def oracle(case, obs):
     if case.get("kind") == "proto":
         return oracle_proto(case, obs)
+    if case.get("kind") == "two":
+        return oracle_two(case, obs)
     if obs == "TIMING-NOT-APPLICABLE":
         return None
     if obs.count("|") != 2:
@@ -568,7 +763,7 @@ def _h11_responses(rng):
 
 
 def gen(rng, tier):
-    cases = gen_proto(rng, tier)
+    cases = gen_proto(rng, tier) + gen_two(rng, tier)
     big = tier != "quick"
     for desc in _descs(rng, tier):
         wire = build(desc)[0]
@@ -642,6 +837,54 @@ def _proto_case(rng):
             "ops": ops, "body": None if body is None else body.hex()}
 
 
+TWO_FIRST = [
+    (b"HTTP/1.1 200 OK\r\nContent-Length: 5\r\n\r\nhello", 200, b"hello"),
+    (b"HTTP/1.1 200 OK\r\nTransfer-Encoding: chunked\r\n\r\n3\r\nabc\r\n2\r\nde\r\n0\r\n\r\n", 200, b"abcde"),
+    (b"HTTP/1.1 404 NF\r\nContent-Length: 1\r\n\r\nx", 404, b"x"),
+    (b"HTTP/1.1 204 No Content\r\n\r\n", 204, b""),
+    (b"HTTP/1.1 200 OK\r\nContent-Length: 0\r\n\r\n", 200, b""),
+]
+TWO_SECOND = [
+    (b"HTTP/1.1 201 Created\r\nContent-Length: 2\r\n\r\nok", 201, b"ok"),
+    (b"HTTP/1.1 200 OK\r\nTransfer-Encoding: chunked\r\n\r\n3\r\nabc\r\n2\r\nde\r\n0\r\n\r\n", 200, b"abcde"),
+    (b"HTTP/1.1 204 No Content\r\n\r\n", 204, b""),
+]
+
+
+def _two_case(rng, w1, deliver1, issue, req2, w2=None, t2=None):
+    wire1, code1, body1 = w1
+    wire2, code2, body2 = w2 or rng.choice(TWO_SECOND)
+    t2 = len(wire2) if t2 is None else t2
+    ops2 = [["data", x.hex()] for x in _segment(rng, wire2[:t2])]
+    if req2 == "async" and rng.random() < 0.9:
+        ops2.insert(rng.randrange(len(ops2) + 1), ["qdone"])
+    for _ in range(rng.choice([1, 1, 2])):
+        ops2.insert(rng.randrange(len(ops2) + 1), ["deliver"])
+    if rng.random() < 0.6:
+        ops2.append(["deliver"])
+    if rng.random() < 0.8:
+        ops2.append(["lost"])
+    return {"kind": "two", "persistent": rng.random() < 0.8, "method1": b"GET".hex(), "method2": b"GET".hex(),
+            "segs1": [x.hex() for x in _segment(rng, wire1)], "code1": code1, "body1": body1.hex(),
+            "body1_len": len(body1), "deliver1": deliver1, "issue": issue, "req2": req2, "ops2": ops2,
+            "wire2": wire2.hex(), "t2": t2, "code2": code2, "body2": body2.hex(),
+            "headlen2": wire2.index(b"\r\n\r\n") + 4}
+
+
+def gen_two(rng, tier):
+    out = []
+    reps = 1 if tier == "quick" else 6
+    for w1 in TWO_FIRST:
+        for deliver1 in ("at-response", "after-all"):
+            for issue in ("at-close", "at-last-data", "after"):
+                for req2 in ("get", "sync", "async"):
+                    for _ in range(reps):
+                        out.append(_two_case(rng, w1, deliver1, issue, req2))
+                    w2 = rng.choice(TWO_SECOND)
+                    out.append(_two_case(rng, w1, deliver1, issue, req2, w2, rng.randrange(len(w2[0]) + 1)))
+    return out
+
+
 def gen_proto(rng, tier):
     return [_proto_case(rng) for _ in range(700 if tier == "quick" else 12000)]
 
@@ -658,6 +901,8 @@ def corpus():
         {"kind": "proto", "transmitting": False, "method": b"HEAD".hex(), "persistent": True, "body": "",
          "ops": [["abort"], ["data", b"HTTP/1.1 200 OK\r\nContent-Length: 5\r\n\r\n".hex()], ["lost"]]},
     ]
+    rr = __import__("random").Random(7)
+    pre.append(_two_case(rr, TWO_FIRST[0], "at-response", "at-close", "async", TWO_SECOND[0]))
     return pre + _corpus_sessions()
 
 
@@ -688,10 +933,31 @@ def to_coq_proto(case):
     return f"(CProto ({coq_bytes(m)}, {coq_bool(case['transmitting'])}, {coq_list(map(op, case['ops']), 'op')}))"
 
 
+def _coq_ops(ops):
+    def op(o):
+        k = o[0]
+        if k == "data":
+            return f"OData {coq_bytes(H(o[1]))}"
+        return {"qdone": "OQDone", "qfail": "OQFail", "abort": "OAbort", "cancel": "OCancel", "deliver": "ODeliver",
+                "lost": "OLost"}[k]
+    return coq_list(map(op, ops), "op")
+
+
+def to_coq_two(case):
+    cl = lambda xs: coq_list((coq_bytes(H(x)) for x in xs), "(list N)")
+    t1 = "TBetween" if case["deliver1"] == "at-response" else "TAfterLost"
+    tr = {"at-close": "TrClose", "after": "TrEnd"}.get(case["issue"]) or f"(TrLastData {case['body1_len']}%nat)"
+    m2 = H(case["method2"]) if case["req2"] == "get" else b"POST"
+    return (f"(CTwo ({coq_bytes(H(case['method1']))}, {cl(case['segs1'])}, {t1}, {tr}, {coq_bytes(m2)}, "
+            f"{coq_bool(case['req2'] == 'async')}, {_coq_ops(case['ops2'])}))")
+
+
 def to_coq(case):
+    if case.get("kind") == "two":
+        return to_coq_two(case)
     if case.get("kind") == "proto":
-        return to_coq_proto(case)
-    return "(CSession " + _to_coq_session(case) + ")"
+        return "(C1 " + to_coq_proto(case) + ")"
+    return "(C1 (CSession " + _to_coq_session(case) + "))"
 
 
 def _to_coq_session(case):
@@ -709,6 +975,14 @@ def model_equal(case, impl_obs, model_obs):
 
 
 def shrink(case):
+    if case.get("kind") == "two":
+        ops = case["ops2"]
+        for i in range(len(ops)):
+            if ops[i][0] != "data":
+                yield {**case, "ops2": ops[:i] + ops[i + 1:]}
+        if len(case["segs1"]) > 1:
+            yield {**case, "segs1": ["".join(case["segs1"])]}
+        return
     if case.get("kind") == "proto":
         ops = case["ops"]
         for i in range(len(ops)):
@@ -722,6 +996,8 @@ def shrink(case):
 
 
 def histogram(case, obs):
+    if case.get("kind") == "two":
+        return f"two:{case['issue']}:{case['deliver1']}:{case['req2']}"
     if case.get("kind") == "proto":
         ks = {o[0] for o in case["ops"]}
         return ("proto:" + ("transmitting" if case["transmitting"] else "waiting") + (":abort" if "abort" in ks else "")
@@ -735,10 +1011,10 @@ SPEC = Spec(
     pid="C23",
     gen=gen, impl=impl, oracle=oracle, corpus=corpus, shrink=shrink,
     coq_header="From C23 Require Import Model Protocol Run.",
-    coq_fn="run_show_any",
+    coq_fn="run_show_all",
     to_coq=to_coq,
     model_equal=model_equal,
-    nontrivial=lambda c, o: c.get("kind") == "proto" or c["t"] > 0,
+    nontrivial=lambda c, o: c.get("kind") in ("proto", "two") or c["t"] > 0,
     histogram=histogram,
     rule="responses built from structured descriptions (GET/HEAD x 200/204/304/404 x Content-Length / duplicated "
          "Content-Length / chunked with extensions and trailers / close-delimited; 0-2 interim 1xx; CRLF or bare LF; "
